@@ -33,6 +33,7 @@ func runC19(c *Ctx) {
 	r.Rule("C19.migration-layout", "migration.Encode = Prefix ‖ b1t6(addr ‖ blake2b(addr)[0:4]) ‖ Suffix with the constants Decode tests")
 	r.Assume("iota.go v1.0.0 guards.IsTrytesOfExactLength, b1t6.EncodeToTrytes/DecodeTrytes (strict per its own tests), x/crypto/blake2b; C04's obligations for bech32.Decode")
 
+	pureScan(c, "C19.pure.no-package-state", c.P.Func("pkg/bech32/address", "ParseBech32"), c.P.Func("pkg/bech32/address", "Bech32"), c.P.Func("pkg/migration", "Encode"), c.P.Func("pkg/migration", "Decode"))
 	c19Parse(c)
 	c19Migration(c)
 }
